@@ -317,4 +317,129 @@ theorem fieldsSz_mod : ∀ (fs : List Field) (vs : List FVal) (acc lo : Nat),
           omega
         | _ => simp [FKind.fitsVal] at hfit
 
+set_option linter.unusedSimpArgs false in
+/-- `getHeader`'s field size is the number of bytes `EncodeFields` writes (each variable-length field is sized in uint16
+arithmetic; `fits` keeps every one of them below 2^16) -/
+theorem fieldsSz_exact : ∀ (fs : List Field) (vs : List FVal) (acc lo : Nat),
+    fieldsWF fs lo = true → fitsFields fs vs = true →
+    fieldsSz fs vs = (encFields fs vs acc).length := by
+  intro fs
+  induction fs with
+  | nil => intro vs acc lo _ _; simp [encFields, fieldsSz]
+  | cons f fs ih =>
+    intro vs acc lo hwf hfit
+    cases hk : f.kind with
+    | pad size =>
+      simp only [fieldsWF, hk] at hwf
+      simp only [fitsFields, hk] at hfit
+      simp only [encFields, fieldsSz, hk, List.length_append, List.length_replicate]
+      have := ih vs 0 0 hwf hfit
+      omega
+    | scalar size bits bit part signed isBool =>
+      simp only [fieldsWF, hk] at hwf
+      simp only [fitsFields, hk] at hfit
+      cases vs with
+      | nil => simp at hfit
+      | cons v vs' =>
+        simp only [Bool.and_eq_true] at hfit
+        obtain ⟨hv, hfit'⟩ := hfit
+        cases v with
+        | num n =>
+          simp only [encFields, fieldsSz, hk]
+          by_cases h8 : bits = 8
+          · simp only [h8, if_true, Bool.and_eq_true, Bool.not_eq_true'] at hwf ⊢
+            have := ih vs' 0 0 hwf.2 hfit'
+            simp only [hwf.1, Bool.false_eq_true, if_false, List.length_append, length_putInt]
+            omega
+          · simp only [h8, if_false, Bool.and_eq_true, decide_eq_true_eq, beq_iff_eq, Bool.not_eq_true'] at hwf ⊢
+            obtain ⟨⟨⟨⟨⟨hsize, hsigned⟩, hlo⟩, hb1⟩, hb8⟩, hwf'⟩ := hwf
+            subst hsize
+            cases part with
+            | true => simpa using ih vs' _ _ hwf' hfit'
+            | false =>
+              simp only [Bool.false_eq_true, if_false, List.length_cons] at hwf' ⊢
+              have := ih vs' 0 0 hwf' hfit'
+              omega
+        | _ => simp [FKind.fitsVal] at hv
+    | fixedArr elem len =>
+      simp only [fieldsWF, hk] at hwf
+      simp only [fitsFields, hk] at hfit
+      cases vs with
+      | nil => simp at hfit
+      | cons v vs' =>
+        simp only [Bool.and_eq_true] at hfit
+        cases v with
+        | bytes b =>
+          simp only [encFields, fieldsSz, hk, List.length_append, List.tail_cons]
+          have := ih vs' 0 0 hwf hfit.2
+          have hb : b.length = elem * len := by simpa [FKind.fitsVal] using hfit.1
+          omega
+        | _ => simp [FKind.fitsVal] at hfit
+    | arr elem =>
+      simp only [fieldsWF, hk] at hwf
+      simp only [fitsFields, hk] at hfit
+      cases vs with
+      | nil => simp at hfit
+      | cons v vs' =>
+        simp only [Bool.and_eq_true] at hfit
+        cases v with
+        | bytes b =>
+          simp only [encFields, fieldsSz, hk, List.length_append, put16, List.length_cons, List.length_nil, wrap16]
+          have := ih vs' 0 0 hwf hfit.2
+          have hbd := hfit.1; simp only [FKind.fitsVal, Bool.and_eq_true, decide_eq_true_eq, beq_iff_eq] at hbd
+          obtain ⟨hb, hbd⟩ := hbd
+          subst hb
+          omega
+        | nums l =>
+          simp only [encFields, fieldsSz, hk, List.length_append, put16, List.length_cons, List.length_nil, wrap16,
+            length_flatMap_putNat]
+          have := ih vs' 0 0 hwf hfit.2
+          have hbd := hfit.1; simp only [FKind.fitsVal, Bool.and_eq_true, decide_eq_true_eq, beq_iff_eq] at hbd
+          have hbd' := hbd.1.2
+          omega
+        | _ => simp [FKind.fitsVal] at hfit
+    | str =>
+      simp only [fieldsWF, hk] at hwf
+      simp only [fitsFields, hk] at hfit
+      cases vs with
+      | nil => simp at hfit
+      | cons v vs' =>
+        simp only [Bool.and_eq_true] at hfit
+        cases v with
+        | bytes b =>
+          simp only [encFields, fieldsSz, hk, List.length_append, put16, List.length_cons, List.length_nil, wrap16]
+          have := ih vs' 0 0 hwf hfit.2
+          have hbd := hfit.1; simp only [FKind.fitsVal, Bool.and_eq_true, decide_eq_true_eq, beq_iff_eq] at hbd
+          omega
+        | _ => simp [FKind.fitsVal] at hfit
+    | bitArr =>
+      simp only [fieldsWF, hk] at hwf
+      simp only [fitsFields, hk] at hfit
+      cases vs with
+      | nil => simp at hfit
+      | cons v vs' =>
+        simp only [Bool.and_eq_true] at hfit
+        cases v with
+        | bits n b =>
+          simp only [encFields, fieldsSz, hk, List.length_append, put16, List.length_cons, List.length_nil, wrap16]
+          have := ih vs' 0 0 hwf hfit.2
+          have hbd := hfit.1; simp only [FKind.fitsVal, Bool.and_eq_true, decide_eq_true_eq, beq_iff_eq] at hbd
+          omega
+        | _ => simp [FKind.fitsVal] at hfit
+    | rest =>
+      simp only [fieldsWF, hk] at hwf
+      simp only [fitsFields, hk] at hfit
+      cases vs with
+      | nil => simp at hfit
+      | cons v vs' =>
+        simp only [Bool.and_eq_true] at hfit
+        cases v with
+        | bytes b =>
+          simp only [encFields, fieldsSz, hk, List.length_append, wrap16]
+          have := ih vs' 0 0 hwf hfit.2
+          have hbd := hfit.1; simp only [FKind.fitsVal, Bool.and_eq_true, decide_eq_true_eq, beq_iff_eq] at hbd
+          omega
+        | _ => simp [FKind.fitsVal] at hfit
+
+
 end LLRP
